@@ -873,3 +873,12 @@ package objects
 //@   sweep
 //@   mode nopanic=off
 //@   at[nothingleft] call objects.Application.HandleApplicationEvent#1: assert arg1 == CompleteApplication && appZero(sa) && appState(sa) != "Completing" && appState(sa) != "Failing"
+
+// ================================================================ C13: SI input handling
+
+//@ func NewAllocationFromSI(alloc *si.Allocation) (a *Allocation)
+//@   props C13
+//@   sweep
+//@   mode nopanic=off
+//@   ensures[nil] a == nil <==> (alloc == nil || (alloc.Placeholder && alloc.TaskGroupName == ""))
+//@   ensures[fields] a != nil ==> a.allocationKey == alloc.AllocationKey && a.applicationID == alloc.ApplicationID && a.placeholder == alloc.Placeholder && a.taskGroupName == alloc.TaskGroupName && a.nodeID == alloc.NodeID && a.allocated == (alloc.NodeID != "") && a.allocatedResource != nil && !a.released && !a.preempted
